@@ -6,6 +6,8 @@ Space: one-class DEX files; every legal (value_type, value_arg) pair:
   (sign-/zero-extended non-minimal encodings); boolean 0/1; null; string/type/field/method/enum references with
   index < 256 (width 1 and non-minimal width 2) and index >= 256 (width 2: the pools are padded); arrays and
   annotations nested to depth 2 (array-in-annotation, annotation-in-array, array-in-array).
+  Two classes sharing ONE encoded_array_item (byte-identical static values, field lists of 1..3 fields, array of 1..min values,
+  both class orders).
   Each value is observed (a) as a static-field initial value (static_values array; also with the array shorter than
   the field list), (b) as an annotation element value (class annotation, one element per value), (c) in the field
   initialiser the decompiler prints (numeric / boolean / null / identifier-like strings only).
@@ -261,9 +263,58 @@ def batches():
     return [cs[i:i + BATCH] for i in range(0, len(cs), BATCH)]
 
 
+def shared_cases():
+    """two classes whose static_values are byte-identical and therefore share ONE encoded_array_item (as dx/d8 emit it):
+    (n1, n2, L, order): class P has n1 static int fields, class Q has n2, the shared array has L <= min(n1, n2) values"""
+    out = []
+    for n1 in (1, 2, 3):
+        for n2 in (1, 2, 3):
+            for L in range(1, min(n1, n2) + 1):
+                for order in (0, 1):
+                    out.append((n1, n2, L, order))
+    return out
+
+
+def judge_shared(case):
+    from gen import dexgen as G
+    from androguard.core import dex
+    n1, n2, L, order = case
+    vals = [-2, -3, 0x7fffffff][:L]
+
+    def cls(name, n):
+        return G.Class(name, sfields=[G.Field("f%d" % i, "I", G.ACC_STATIC | G.ACC_PUBLIC) for i in range(n)],
+                       static_values=[G.EV("int", v) for v in vals])
+    classes = [cls("Lp/P;", n1), cls("Lp/Q;", n2)]
+    if order:
+        classes.reverse()
+    model = G.Dex(classes)
+    model.share_equal_arrays = True
+    raw, lay = G.build(model, return_layout=True)
+    out = []
+    n_arrays = sum(1 for k in lay["item_off"] if k[0] == G.T_ENC_ARRAY)
+    if n_arrays != 1:
+        return [("harness", "expected ONE shared encoded_array_item, writer produced %d" % n_arrays)]
+    try:
+        vm = dex.DEX(raw)
+        for c, n in zip(vm.get_classes(), [len(x.sfields) for x in classes]):
+            got = {}
+            for f in c.get_fields():
+                iv = f.get_init_value()
+                got[f.get_name()] = None if iv is None else iv.get_value()
+            want = {"f%d" % i: (vals[i] if i < L else None) for i in range(n)}
+            if got != want:
+                pos = "first" if c.get_name() == classes[0].name else "second"
+                out.append(("static:shared-array:%s-class%s" % (pos, ":longer-field-list" if n > L else ""),
+                            "classes %r share one static_values array of %d values; %s reports %r, encoded %r"
+                            % ([(x.name, len(x.sfields)) for x in classes], L, c.get_name(), got, want)))
+    except Exception as e:     # noqa
+        out.append(("static:shared-array:exception:%s" % type(e).__name__, "%s: %s" % (type(e).__name__, e)))
+    return out
+
+
 def shards(ctx):
     n = len(batches())
-    return [(i, s) for i in range(n) for s in (0, 1)]
+    return [(i, s) for i in range(n) for s in (0, 1)] + [("shared", 0)]
 
 
 def space(ctx):
@@ -300,6 +351,17 @@ def fromjson(j):
 def run_shard(ctx, shard):
     acc = Acc()
     i, short = shard
+    if i == "shared":
+        for case in shared_cases():
+            res = judge_shared(case)
+            acc.case(nontrivial=repr(("shared", case)), outcome="shared")
+            for key, msg in res:
+                if key == "harness":
+                    acc.harness_error(msg)
+                else:
+                    acc.violation(key, {"shared": list(case)}, msg)
+        acc.sample({"shared_static_values": {"fields_P": 3, "fields_Q": 1, "values": 1, "class_order": "P,Q"}})
+        return acc
     cases = batches()[i]
     res = judge(cases, short_static=3 if short else 0)
     for c in cases:
@@ -312,6 +374,9 @@ def run_shard(ctx, shard):
 
 
 def replay(ctx, w):
+    if "shared" in w:
+        res = judge_shared(tuple(w["shared"]))
+        return "\n".join("%s: %s" % r for r in res) if res else None
     res = judge([fromjson(c) for c in w["cases"]], short_static=w.get("short", 0))
     return "\n".join("%s: %s" % (k, m) for _, k, m in res) if res else None
 
